@@ -26,7 +26,7 @@ RULE = ("case = either a VTI history (domain with nnodes % nel != 0, 1..4 arrays
 FUZZ = {"quick": 0, "thorough": 3000, "instrument": "pymoto.modules.io"}
 ASSUMPTIONS = [
     "only domains with nnodes % nel != 0 (property's restriction)",
-    "only arrays whose classification by size is unambiguous: total size a multiple of exactly one of nel / nnodes, "
+    "node arrays only when their size is not a multiple of nel (element arrays of any size: 'multiple of nel' is tested first), "
     "block count k not a multiple of nel (nnodes); ambiguous arrays drawn by the generator are dropped and counted "
     "under the label ambiguous_excluded",
     "block vectors in both orientations the code accepts: rows (k, c*n) and columns (c*n, k); nodal data with 2 components only in 2-D domains",
@@ -162,8 +162,9 @@ def _vti_data(a, n_per, it):
 def _unambiguous(a, nel, nn):
     k, c = max(a["nblock"], 1), a["ncomp"]
     if a["kind"] == "elem":
-        size = k * c * nel
-        return size % nn != 0 and (a["nblock"] == 0 or k % nel != 0)
+        # an element array whose size is ALSO a multiple of nnodes (3 components on a 4x5 grid: 60 = 3*20 = 2*30) is kept:
+        # write_to_vti tests "multiple of nel" first, so element data written as such decodes as cell data
+        return a["nblock"] == 0 or k % nel != 0
     size = k * c * nn
     return size % nel != 0 and (a["nblock"] == 0 or k % nn != 0)
 
@@ -235,6 +236,8 @@ def _check_vti(case, pym, tmp, labels, bad):
             a = dict(a, ncomp=3)
         if _unambiguous(a, nel, nn):
             specs.append(a)
+            if a["kind"] == "elem" and (max(a["nblock"], 1) * a["ncomp"] * nel) % nn == 0:
+                labels.append("elem_size_also_multiple_of_nnodes")
         else:
             labels.append("ambiguous_excluded")
     if not specs:
